@@ -2,7 +2,10 @@
 
 Workload: generated (module, stubs) source pairs with random overlap of member names, kind mismatches
 (attribute / function / class / import), nested classes, imports (aliases) on either side, overload
-groups in the stubs (with and without implementation); four placements of the same pair:
+groups in the stubs (with and without implementation, with and without a runtime member of that name), classes
+deriving from other classes (earlier classes of the module and their nested classes, earlier classes of the same class
+body, classes imported from the un-stubbed ``pkg._impl``, names nobody defines) so that the stubs of a class name members
+its runtime counterpart only *inherits*; four placements of the same pair:
 
 * ``inpkg``    : ``pkg/__init__.py`` + ``pkg/__init__.pyi`` and ``pkg/mod.py`` + ``pkg/mod.pyi``,
                  the ``.py`` / ``.pyi`` file met first or second (M-INJ-LS custom order);
@@ -12,7 +15,8 @@ groups in the stubs (with and without implementation); four placements of the sa
 * ``api``      : ``merge_stubs(a, b)`` called directly with both argument orders.
 
 Oracle: the expected merged tree is computed from the two *sources* (parsed with ``ast``, independently
-of Griffe) by the rules of the statement; canonical JSON must be equal for both discovery orders;
+of Griffe) by the rules of the statement; the module nobody writes stubs for (``pkg._impl``, generated per case, holds the
+imported base classes) must come out exactly as its source says; canonical JSON must be equal for both discovery orders;
 window monitor on ``Alias.resolve_target`` while ``merge_stubs`` is on the stack (alias resolution is off).
 """
 from __future__ import annotations
@@ -35,7 +39,11 @@ ANCHORS = ["merger.py"]
 RULE = ("seeded random pairs of (runtime module, stubs) sources built jointly per scope: every name of a small pool is absent / "
         "attribute / function / class / import on each side (55% same kind, 25% mismatched kind, stub-only and runtime-only "
         "names), classes nest to depth 3, functions get 0-3 parameters with annotations from disjoint vocabularies (R*, S*), "
-        "docstrings present or missing on either side, stubs carry @overload groups with or without implementation; two "
+        "docstrings present or missing on either side, stubs carry @overload groups with or without implementation and with or "
+        "without a runtime member of that name; classes derive (1-2 bases) from class expressions visible per Python scoping "
+        "- earlier module classes and their nested classes (dotted), earlier classes of the same class body, classes imported "
+        "from a generated un-stubbed module pkg._impl (B1, B2(B1) with members named from every nested pool) - or from an "
+        "undefined name; a runtime class that derives declares fewer names itself, so its stubs name inherited members; two "
         "pairs (package __init__ and a sub-module) per case, placed as .pyi inside the package, as a -stubs package, as "
         "top-level sibling .pyi, and merged through the API; both discovery orders each. distinct = digest of placement + "
         "sources; non-trivial = >=1 same-named pair of mismatched kinds and >=1 class nested in a class")
@@ -43,7 +51,9 @@ LEVEL_TEXT = ("Each generated pair is written to disk in every placement and loa
               "(or the two search paths / the two merge_stubs arguments) met in both orders; the merged tree is compared "
               "member by member with the expectation derived from the two sources (runtime members kept with their kind, "
               "stub annotations / returns / overload lists on same-kind members, runtime docstring unless missing, stub-only "
-              "members added with runtime=False, mismatched kinds untouched, no exception), canonical JSON must be equal "
+              "members added with runtime=False - also when the runtime class inherits that name -, mismatched kinds untouched, "
+              "no exception), the un-stubbed module pkg._impl that holds imported base classes is compared the same way with "
+              "an empty stub side (a member the stubs say nothing about must not change), canonical JSON must be equal "
               "across orders, and every Alias.resolve_target call made while merge_stubs is on the stack (explicit merge in "
               "_load_package, implicit merge in set_member, direct API call) must be on a runtime-side import that has a "
               "same-named non-import stub member or stub @overload group - the only object merger.py dereferences "
@@ -57,15 +67,21 @@ REQUIRED_COUNTERS = ["placements_judged", "runtime_members_checked", "same_kind_
                      "stub_only_members_checked", "stub_annotations_checked", "docstring_rule_checked", "overload_lists_checked",
                      "orders_compared", "alias_resolution_windows", "merge_stubs_calls_in_window", "aliases_state_checked", "nested_class_pairs_checked",
                      "merge_into_alias_target_seen", "listings_with_py_pyi_pair_stub_first",
-                     "listings_with_py_pyi_pair_runtime_first"]
+                     "listings_with_py_pyi_pair_runtime_first", "bystander_modules_judged", "merged_classes_inheriting_names",
+                     "inherited_name_stub_overloads_only", "inherited_name_stub_member", "stub_overloads_only_no_runtime_member"]
 EXHAUSTIVE = {"quick": False, "thorough": False}
 ASSUMPTIONS = ["the alias monitor's window is the dynamic extent of merge_stubs (every reference to it in merger, loader and mixins "
                "is wrapped); what the loader resolves outside of merging (expand_exports / expand_wildcards) is not this property",
                "stub has no annotation where the runtime has one: keeping or dropping the runtime annotation both accepted",
                "a runtime import with same-named non-import stubs: the documented 'merge into the alias target' is allowed "
                "to resolve that alias; what the target then looks like is not judged",
-               "a function present in the stubs only as @overload signatures and absent at runtime is not a member of "
-               "Griffe's stub tree (visitor design) and is not generated",
+               "a function present in the stubs only as @overload signatures and not declared by the runtime scope is not a "
+               "member of Griffe's stub tree (visitor design): whether the merged scope gets such a member is not judged; "
+               "everything else (declared members of the scope, of its base classes, of other modules) is",
+               "objects of pkg._impl that a runtime import with same-named non-import stubs points at are not judged (merge "
+               "into the alias target); every other member of pkg._impl is",
+               "the inheritance counters use the oracle's own reading of the sources (Python scoping of base expressions); "
+               "verdicts never depend on them",
                "flags of the children of a stub-only class (runtime=True/False) are not judged, only the member itself"]
 SHARD_TIMEOUT = {"quick": 600, "thorough": 3600}
 
@@ -74,7 +90,9 @@ IMPL = ('class T1:\n    """R doc T1"""\n    def meth(self, a: R1) -> R2:\n      
         't_attr: R1 = 1\n')
 ALIAS_FORMS = [("from pkg._impl import T1 as {n}", "pkg._impl.T1"), ("from pkg._impl import t_func as {n}", "pkg._impl.t_func"),
                ("from pkg._impl import t_attr as {n}", "pkg._impl.t_attr"), ("from typing import Any as {n}", "typing.Any"),
-               ("import pathlib as {n}", "pathlib"), ("from pkg._impl import T1 as {n}", "pkg._impl.T1")]
+               ("import pathlib as {n}", "pathlib"), ("from pkg._impl import B1 as {n}", "pkg._impl.B1"),
+               ("from pkg._impl import B2 as {n}", "pkg._impl.B2"), ("from pkg._impl import B1 as {n}", "pkg._impl.B1")]
+IMPL_CLASSES = ("pkg._impl.T1", "pkg._impl.B1", "pkg._impl.B2")     # import targets that can be named as a base class
 NAMES = {0: ["n1", "n2", "n3", "n4", "n5", "n6"], 1: ["m1", "m2", "m3", "m4"], 2: ["k1", "k2", "k3"], 3: ["j1", "j2"]}
 
 
@@ -133,14 +151,65 @@ def gen_alias(rng: random.Random, name: str) -> dict:
     return {"kind": "alias", "name": name, "stmt": stmt.format(n=name), "target": target}
 
 
-def gen_scope(rng: random.Random, depth: int, in_class: bool, sides: str = "RS") -> tuple[list, list]:
-    """Jointly generate the members of one scope for both sides."""
+def gen_bases(rng: random.Random, side: str, visible: list[str]) -> list[str]:
+    """Base-class expressions: none, a name nobody defines, or one / two class expressions visible at this point per Python
+    scoping (earlier classes of the module and their nested classes, imported classes, earlier classes of the same class body)."""
+    r = rng.random()
+    if not visible or r < 0.3:
+        return rng.choice([[], [], [f"{side}Base"]])
+    if r < 0.9 or len(visible) < 2:
+        return [rng.choice(visible)]
+    return rng.sample(visible, 2)
+
+
+def _class_exprs(name: str, members: list) -> list[str]:
+    out = [name]
+    for m in members:
+        if m["kind"] == "class":
+            out += [f"{name}.{e}" for e in _class_exprs(m["name"], m["members"])]
+    return out
+
+
+def gen_impl(rng: random.Random) -> str:
+    """The module nobody writes stubs for: the fixed import targets plus two base classes (B2 usually derives from B1) whose
+    members carry names of every nested pool, so that classes of the pairs that derive from them inherit names the stubs use."""
+    pool = NAMES[1] + NAMES[2] + NAMES[3]
+
+    def body(p: float) -> list:
+        ms: list[dict] = []
+        for name in pool:
+            r = rng.random()
+            if r < p * 0.55:
+                ms.append(gen_func(rng, "R", name, True))
+                if rng.random() < 0.1:
+                    gen_overloads(rng, "R", ms[-1], True)
+            elif r < p * 0.85:
+                ms.append(gen_attr(rng, "R", name))
+            elif r < p:
+                ms.append({"kind": "class", "name": name, "doc": _doc(rng, "R", name, 0.5), "bases": [],
+                           "members": [gen_func(rng, "R", n, True) for n in NAMES[3] if rng.random() < 0.6]})
+        return ms
+
+    classes = [{"kind": "class", "name": "B1", "doc": "R doc B1", "members": body(0.7), "bases": []},
+               {"kind": "class", "name": "B2", "doc": _doc(rng, "R", "B2", 0.5), "members": body(0.45),
+                "bases": rng.choice([["B1"], ["B1"], ["T1"], ["B1", "T1"], []])}]
+    return ("from typing import overload\n" if _uses_overload(classes) else "") + IMPL + "\n".join(render_members(classes, "", False)) + "\n"
+
+
+def gen_scope(rng: random.Random, depth: int, in_class: bool, sides: str = "RS", glob: dict | None = None,
+              derived: bool = False) -> tuple[list, list]:
+    """Jointly generate the members of one scope for both sides.  ``glob``: per side, the class expressions of the module scope
+    defined so far (the only enclosing scope a class body can see); a class body additionally sees its own earlier names.
+    ``derived``: the runtime class derives from a visible class - it then declares fewer names itself (the rest is inherited)
+    while the stubs spell members out as usual."""
     rm: list[dict] = []
     sm: list[dict] = []
+    glob = {"R": [], "S": []} if glob is None else glob
+    local = glob if depth == 0 else {"R": [], "S": []}
     kinds = ["attr", "func", "class", "alias"]
     for name in NAMES[depth]:
         w = [3, 3, 2 if depth < 3 else 0, 1 if depth == 0 else 0]
-        rk = rng.choices([None, *kinds], [2, *w])[0] if "R" in sides else None
+        rk = rng.choices([None, *kinds], [6 if derived else 2, *w])[0] if "R" in sides else None
         if "S" not in sides:
             sk = None
         elif rk is None:
@@ -169,18 +238,32 @@ def gen_scope(rng: random.Random, depth: int, in_class: bool, sides: str = "RS")
             s_m = gen_func(rng, "S", name, in_class, like=r_m if rk == "func" else None)
             if rng.random() < 0.35:
                 gen_overloads(rng, "S", s_m, in_class)
-                s_m["impl"] = rng.random() < 0.2 or rk is None      # overload-only needs a runtime member of that name
+                # overload-only: with a runtime member of that name (any kind), or without one (then the runtime scope may
+                # still inherit the name from a base class)
+                s_m["impl"] = rng.random() < (0.2 if rk is not None else 0.4)
         elif sk == "alias":
             s_m = gen_alias(rng, name)
         if rk == "class" or sk == "class":
             both = rk == "class" and sk == "class"
-            r_sub, s_sub = gen_scope(rng, depth + 1, True, "RS" if both else ("R" if rk == "class" else "S")) if depth < 3 else ([], [])
+            visible = {x: glob[x] + (local[x] if local is not glob else []) for x in "RS"}
             if rk == "class":
-                r_m = {"kind": "class", "name": name, "doc": _doc(rng, "R", name, 0.6), "members": r_sub,
-                       "bases": rng.choice([[], [], ["RBase"]])}
+                r_m = {"kind": "class", "name": name, "doc": _doc(rng, "R", name, 0.6), "bases": gen_bases(rng, "R", visible["R"])}
             if sk == "class":
-                s_m = {"kind": "class", "name": name, "doc": _doc(rng, "S", name, 0.4), "members": s_sub,
-                       "bases": rng.choice([[], [], ["SBase"]])}
+                s_m = {"kind": "class", "name": name, "doc": _doc(rng, "S", name, 0.4),
+                       "bases": list(r_m["bases"]) if both and rng.random() < 0.5 else gen_bases(rng, "S", visible["S"])}
+            r_sub, s_sub = gen_scope(rng, depth + 1, True, "RS" if both else ("R" if rk == "class" else "S"), glob,
+                                     derived=rk == "class" and any(b in visible["R"] for b in r_m["bases"])) \
+                if depth < 3 else ([], [])
+            if rk == "class":
+                r_m["members"] = r_sub
+                local["R"] += _class_exprs(name, r_sub)
+            if sk == "class":
+                s_m["members"] = s_sub
+                local["S"] += _class_exprs(name, s_sub)
+        if r_m and r_m["kind"] == "alias" and r_m["target"] in IMPL_CLASSES:
+            local["R"].append(name)
+        if s_m and s_m["kind"] == "alias" and s_m["target"] in IMPL_CLASSES:
+            local["S"].append(name)
         if r_m:
             rm.append(r_m)
         if s_m:
@@ -308,6 +391,77 @@ def parse_source(src: str) -> dict:
 EMPTY = {"doc": None, "members": {}, "overload_only": {}}
 
 
+# ------------------------------------------------------------------------------------------
+# reference model of inheritance (Python scoping on the oracle's own reading of the sources): which names a runtime class
+# inherits.  Used to show in the evidence that stubs naming *inherited* members are exercised; verdicts never depend on it.
+def link(scope: dict, parent: dict | None = None, module: dict | None = None) -> dict:
+    scope["_parent"], scope["_module"] = parent, module or scope
+    for m in scope["members"].values():
+        if m["kind"] == "class":
+            link(m, scope, scope["_module"])
+    return scope
+
+
+def lookup_class(expr: str, scope: dict, impl: dict | None) -> dict | None:
+    """The class a base expression written in a class statement of ``scope`` denotes: names of that scope, then globals
+    (class bodies do not nest as scopes); imports are followed into ``impl`` (the loaded pkg._impl) when it is given."""
+    parts = expr.split(".")
+    cur = scope["members"].get(parts[0]) or scope["_module"]["members"].get(parts[0])
+    for part in parts[1:] + [None]:
+        if cur is not None and cur["kind"] == "alias":
+            tgt = cur["target"].split(".")
+            cur = impl["members"].get(tgt[2]) if impl is not None and tgt[:2] == ["pkg", "_impl"] and len(tgt) == 3 else None
+        if cur is None or cur["kind"] != "class":
+            return None
+        if part is not None:
+            cur = cur["members"].get(part)
+    return cur
+
+
+def inherited_names(cls: dict, impl: dict | None, seen: tuple = ()) -> set[str]:
+    out: set[str] = set()
+    if any(cls is c for c in seen):
+        return out
+    for expr in cls["bases"]:
+        base = lookup_class(expr, cls["_parent"], impl)
+        if base is not None:
+            out |= set(base["members"]) | inherited_names(base, impl, (*seen, cls))
+    return out
+
+
+def count_inheritance(rec, r: dict, s: dict, impl: dict | None) -> None:  # noqa: ANN001
+    """Counters over one (runtime scope, stub scope) pair that gets merged, recursively through same-named classes."""
+    for name in s["overload_only"]:
+        if name not in r["members"]:
+            rec.count("stub_overloads_only_no_runtime_member")
+    for name, rm in r["members"].items():
+        sm = s["members"].get(name)
+        if rm["kind"] != "class" or sm is None or sm["kind"] != "class":
+            continue
+        inh = inherited_names(rm, impl) - set(rm["members"])
+        if inh:
+            rec.count("merged_classes_inheriting_names")
+        for n in inh:
+            if n in sm["overload_only"]:
+                rec.count("inherited_name_stub_overloads_only")
+            elif n in sm["members"]:
+                rec.count("inherited_name_stub_member")
+        count_inheritance(rec, rm, sm, impl)
+
+
+def merged_alias_targets(r: dict, s: dict) -> set[str]:
+    """Targets of the runtime imports that have a same-named non-import stub member (or stub overloads): the documented
+    'merge into the alias target' may write into these objects."""
+    out = set()
+    for name, rm in r["members"].items():
+        sm = s["members"].get(name)
+        if rm["kind"] == "alias" and ((sm is not None and sm["kind"] != "alias") or name in s["overload_only"]):
+            out.add(rm["target"])
+        if rm["kind"] == "class" and sm is not None and sm["kind"] == "class":
+            out |= merged_alias_targets(rm, sm)
+    return out
+
+
 def has_mismatch(r: dict, s: dict) -> bool:
     for name, rm in r["members"].items():
         sm = s["members"].get(name)
@@ -394,16 +548,22 @@ class Judge:
         self.doc(path, g, r["doc"], s["doc"] if s else None)
 
     # -- containers --------------------------------------------------------------------------
-    def container(self, path: str, g, r: dict, s: dict, stub_side_only: bool = False) -> None:  # noqa: ANN001, C901, PLR0912
-        """g: merged module/class; r: runtime scope; s: stub scope (EMPTY when nothing is merged)."""
+    def container(self, path: str, g, r: dict, s: dict, stub_side_only: bool = False,  # noqa: ANN001, C901, PLR0912
+                  ignore: frozenset = frozenset()) -> None:
+        """g: merged module/class; r: runtime scope; s: stub scope (EMPTY when nothing is merged); ignore: member names of
+        this level that are not judged (on either side)."""
         self.doc(path, g, r["doc"], s["doc"])
-        members = {n: m for n, m in g.members.items()
-                   if m.is_alias or not m.is_module or n in r["members"] or n in s["members"]}     # sub-modules are not members here
+        if ignore:
+            r = dict(r, members={n: m for n, m in r["members"].items() if n not in ignore})
+        members = {n: m for n, m in g.members.items() if n not in ignore and
+                   (m.is_alias or not m.is_module or n in r["members"] or n in s["members"])}     # sub-modules are not members here
         expected_names = set(r["members"]) | set(s["members"])
         if set(members) != expected_names:
             missing_rt = sorted(set(r["members"]) - set(members))
             missing_st = sorted(set(s["members"]) - set(members) - set(r["members"]))
-            extra = sorted(set(members) - expected_names)
+            # a stub function that only exists as @overload signatures and has no runtime counterpart: whether it becomes a
+            # member is not decided by the statement (Griffe's visitor does not make it one)
+            extra = sorted(n for n in set(members) - expected_names if n not in s["overload_only"])
             if missing_rt:
                 self.bad("runtime-member-lost", path, "runtime member(s) missing after the merge", missing_rt, sorted(r["members"]))
             if missing_st:
@@ -592,11 +752,12 @@ def write_files(root: str, files: dict[str, str]) -> None:
 
 def layout(placement: str, src: dict) -> tuple[dict[str, str], list[tuple[str, str, str]]]:
     """files + [(dotted path of merged module, runtime source key, stub source key)]."""
+    impl = src.get("I", IMPL)
     if placement == "inpkg":
-        return ({"sp/pkg/__init__.py": src["R0"], "sp/pkg/__init__.pyi": src["S0"], "sp/pkg/_impl.py": IMPL,
+        return ({"sp/pkg/__init__.py": src["R0"], "sp/pkg/__init__.pyi": src["S0"], "sp/pkg/_impl.py": impl,
                  "sp/pkg/mod.py": src["R1"], "sp/pkg/mod.pyi": src["S1"]}, [("pkg", "R0", "S0"), ("pkg.mod", "R1", "S1")])
     if placement == "stubspkg":
-        return ({"rt/pkg/__init__.py": src["R0"], "rt/pkg/_impl.py": IMPL, "rt/pkg/mod.py": src["R1"],
+        return ({"rt/pkg/__init__.py": src["R0"], "rt/pkg/_impl.py": impl, "rt/pkg/mod.py": src["R1"],
                  "st/pkg-stubs/__init__.pyi": src["S0"], "st/pkg-stubs/mod.pyi": src["S1"]},
                 [("pkg", "R0", "S0"), ("pkg.mod", "R1", "S1")])
     if placement == "sibling":
@@ -698,9 +859,14 @@ def run_case(rec, case: dict) -> None:  # noqa: ANN001, C901, PLR0912, PLR0915
     listing.install()
     placement, src = case["placement"], case["sources"]
     files, pairs = layout(placement, src)
-    parsed = {k: parse_source(v) for k, v in src.items()}
+    parsed = {k: link(parse_source(v)) for k, v in src.items()}
+    parsed.setdefault("I", link(parse_source(IMPL)))
+    parsed["-"] = EMPTY
+    impl_loaded = placement in ("inpkg", "stubspkg")      # pkg._impl is in the collection while the pairs are merged
+    for _p, rk, sk in pairs:
+        count_inheritance(rec, parsed[rk], parsed[sk], parsed["I"] if impl_loaded else None)
     nt = any(has_mismatch(parsed[r], parsed[s]) for _p, r, s in pairs) and \
-        any(has_nested_class(parsed[k]) for k in parsed)
+        any(has_nested_class(parsed[k]) for _p, r, s in pairs for k in (r, s))
     root = os.path.realpath(tempfile.mkdtemp(prefix="vf19-"))
     old_cwd = os.getcwd()
     judge = Judge(rec)
@@ -775,6 +941,30 @@ def run_case(rec, case: dict) -> None:  # noqa: ANN001, C901, PLR0912, PLR0915
                         for p in judge.problems[before:]:
                             p["order"] = order
                             p["pair"] = [rk, sk]
+                    if impl_loaded:
+                        # the bystander: nobody writes stubs for pkg._impl, so merging the pairs must leave it exactly as its
+                        # source says - except the objects a runtime import with same-named stubs points at (merge into the
+                        # alias target, not judged)
+                        before = len(judge.problems)
+                        touched = set()
+                        for _d, rk, sk in these:
+                            touched |= {t.split(".")[2] for t in merged_alias_targets(parsed[rk], parsed[sk])
+                                        if t.startswith("pkg._impl.")}
+                        g = top.members.get("_impl")
+                        if g is None or g.is_alias or not g.is_module:
+                            judge.bad("runtime-module-lost", "pkg._impl", f"(order {order}) the module without stubs is missing",
+                                      None if g is None else repr(g), "the runtime module")
+                        else:
+                            rec.count("bystander_modules_judged")
+                            rec.count("bystander_members_not_judged_alias_targets", len(touched))
+                            try:
+                                judge.container("pkg._impl", g, parsed["I"], EMPTY, ignore=frozenset(touched))
+                            except Exception as exc:  # noqa: BLE001
+                                judge.bad("malformed-tree", "pkg._impl", f"(order {order}) the tree cannot be read: "
+                                          f"{type(exc).__name__}: {exc}"[:300], None, "a well-formed tree")
+                        for p in judge.problems[before:]:
+                            p["order"] = order
+                            p["pair"] = ["I", "-"]
                     dumps.append(top.as_json(full=False, sort_keys=True))
                 rec.count("orders_compared")
                 if dumps[0] != dumps[1]:
@@ -795,6 +985,7 @@ def run_case(rec, case: dict) -> None:  # noqa: ANN001, C901, PLR0912, PLR0915
     tags = [placement]
     problems = judge.problems
     module_of = {rk: dotted for dotted, rk, _sk in pairs}
+    module_of["I"] = "pkg._impl"
     for p in problems:
         if "pair" in p:
             rk, sk = p["pair"]
@@ -846,7 +1037,7 @@ def run_shard(spec: dict, rec) -> None:  # noqa: ANN001
     for _ in range(spec["count"]):
         r0, s0 = gen_pair(rng, "pkg")
         r1, s1 = gen_pair(rng, "mod")
-        src = {"R0": r0, "S0": s0, "R1": r1, "S1": s1}
+        src = {"R0": r0, "S0": s0, "R1": r1, "S1": s1, "I": gen_impl(rng)}
         for placement in PLACEMENTS:
             run_case(rec, {"placement": placement, "sources": src})
 
